@@ -505,7 +505,8 @@ def o_c03_corrupt(scn, obs, runner):
             if c.in_off >= (end or 1 << 60) and "err InvalidChecksumError" not in kinds:
                 fails.append(dict(op=None, why="a packet with a wrong checksum was consumed without InvalidChecksumError (results: %r)" % kinds))
         if cor["kind"] == "cmd":
-            if c.in_off >= (end or 1 << 60) and "err InvalidCommandError" not in kinds:
+            hdr_end = pos + 24 if pos >= 0 else None
+            if c.in_off >= (hdr_end or 1 << 60) and "err InvalidCommandError" not in kinds:
                 fails.append(dict(op=None, why="a packet with an unknown command word was consumed without InvalidCommandError (results: %r)" % kinds))
     return fails
 
